@@ -133,7 +133,8 @@ def run(chk):
         chk.ob("R19.2", "scale(): new X depends on (X, Z), new Y on (Y, Z)", bool(okd), loc=f.qname, key="C19|R19.2|scale-deps", detail="scale(): dependency sets X' <- %s, Y' <- %s" % (sorted(dx), sorted(dy)))
     # _maybe_precompute guard
     f = p.func("ellipticcurve:PointJacobi._maybe_precompute")
-    g = f.node.body[0] if f.node.body else None
+    nodoc = [s_ for s_ in f.node.body if not (isinstance(s_, ast.Expr) and isinstance(s_.value, ast.Constant))]
+    g = nodoc[0] if nodoc else None
     okg = isinstance(g, ast.If) and len(g.body) == 1 and isinstance(g.body[0], ast.Return) and "self.__precompute" in norm_text(g.test) and "not self.__generator" in norm_text(g.test)
     attrs = {norm_text(x) for x in ast.walk(f.node) if isinstance(x, ast.Attribute) and isinstance(x.ctx, ast.Load) and isinstance(x.value, ast.Name) and x.value.id == "self"}
     chk.ob("R19.2", "_maybe_precompute: returns at once unless generator flag set and table empty; reads only coords/order/curve", okg and attrs <= {"self.__generator", "self.__precompute", "self.__order", "self.__coords", "self.__curve"},
@@ -191,7 +192,8 @@ def run(chk):
             chk.ob("R19.4", "%s.__eq__ compares exactly the value-defining fields %s" % (cname, sorted(allowed)), used == allowed and not bad, loc=eq.qname, key="C19|R19.4|%s" % cname,
                    detail="%s.__eq__ uses fields %s %s (value-defining: %s)" % (cname, sorted(used), bad, sorted(allowed)))
     M = ModP(p, "PointJacobi")
-    eqt = [t for t in M.tests if t.func.node.name == "__eq__" and isinstance(t.stmt, ast.Return) and isinstance(t.stmt.value, ast.BoolOp) and isinstance(t.stmt.value.op, ast.And)]
+    from .c06 import eq_deciding_tests
+    eqt = eq_deciding_tests(M)
     chk.ob("R19.4", "PointJacobi.__eq__ decides by cross-multiplied coordinates reduced mod p (scaling independent)", len(eqt) >= 2 and all(t.exact for t in eqt), loc="ellipticcurve:PointJacobi.__eq__", key="C19|R19.4|PointJacobi",
            detail="PointJacobi.__eq__ is not a comparison of reduced cross products")
     eqf = p.func("ellipticcurve:PointJacobi.__eq__")
@@ -201,7 +203,7 @@ def run(chk):
     for t in M.tests:
         if t.func.node.name != "__eq__" or t.kind != "zero" or "Y" not in t.roles or "X" in t.roles or "Z" in t.roles:
             continue
-        out = identity_outcome(t.stmt, t.node)
+        out = identity_outcome(t)
         if out:
             k = t.ctext
             seen[k] = seen.get(k, 0) + 1
